@@ -55,6 +55,76 @@ Qed.
 Example null_mx : enc_mx 0 [] = Some [Byte.x00; Byte.x00; Byte.x00] /\ dec_mx [Byte.x00; Byte.x00; Byte.x00] = Some (0, []).
 Proof. split; reflexivity. Qed.
 
+(* TXT: the strings a text is cut into are its pieces in order, none longer than 255 octets; every text has an encoding, and
+   decoding it gives the text back - texts of more than 255 octets included *)
+Lemma txt_chunks_concat fuel s : concat (txt_chunks fuel s) = s.
+Proof.
+  revert s. induction fuel as [|f IH]; intros s; cbn [txt_chunks].
+  - cbn. apply app_nil_r.
+  - destruct (zlen s <=? 255); cbn [concat]; [apply app_nil_r|]. rewrite IH. apply firstn_skipn.
+Qed.
+
+Lemma txt_chunks_small fuel s : (length s <= fuel + 255)%nat -> Forall (fun c => zlen c <= 255) (txt_chunks fuel s).
+Proof.
+  revert s. induction fuel as [|f IH]; intros s L; cbn [txt_chunks].
+  - constructor; [unfold zlen; lia|constructor].
+  - destruct (Z.leb_spec (zlen s) 255) as [Hs|Hs]; [constructor; [exact Hs|constructor]|].
+    constructor.
+    + unfold zlen. rewrite firstn_length. lia.
+    + apply IH. rewrite skipn_length. unfold zlen in Hs. lia.
+Qed.
+
+Lemma enc_strings_total l : Forall (fun c => zlen c <= 255) l -> exists b, enc_strings l = Some b.
+Proof.
+  induction 1 as [|x r Hx _ [b Eb]]; [exists []; reflexivity|].
+  cbn [enc_strings]. unfold enc_opaque. pose proof (zlen_nonneg x).
+  destruct (Z.leb_spec 0 (zlen x)); [|lia]. destruct (Z.leb_spec (zlen x) 255); [|lia]. cbn [andb obind]. rewrite Eb. cbn [obind]. eauto.
+Qed.
+
+Lemma enc_strings_length l b : enc_strings l = Some b -> (length l <= length b)%nat.
+Proof.
+  revert b. induction l as [|x r IH]; intros b E; [cbn; lia|].
+  cbn [enc_strings] in E. destruct (enc_opaque 0 255 x) as [a|] eqn:Ea; cbn [obind] in E; [|discriminate].
+  destruct (enc_strings r) as [b'|] eqn:Er; cbn [obind] in E; [|discriminate]. apply Some_inj in E. subst b.
+  specialize (IH b' eq_refl). unfold enc_opaque in Ea. destruct ((0 <=? zlen x) && (zlen x <=? 255)); [|discriminate].
+  apply Some_inj in Ea. subst a. rewrite !app_length. unfold enc_uint. rewrite be_enc_length. change (width_of_ceiling 255) with 1%nat. cbn [length]. lia.
+Qed.
+
+Lemma dec_enc_strings l b fuel : enc_strings l = Some b -> (length l < fuel)%nat -> dec_strings fuel b = Some (concat l).
+Proof.
+  revert b fuel. induction l as [|x r IH]; intros b fuel E F.
+  - cbn in E. apply Some_inj in E. subst b. destruct fuel as [|f]; [lia|]. reflexivity.
+  - cbn [enc_strings] in E. destruct (enc_opaque 0 255 x) as [a|] eqn:Ea; cbn [obind] in E; [|discriminate].
+    destruct (enc_strings r) as [b'|] eqn:Er; cbn [obind] in E; [|discriminate]. apply Some_inj in E. subst b.
+    destruct fuel as [|f]; [lia|]. cbn [dec_strings length concat] in *.
+    assert (Hne : zlen (a ++ b') <> 0).
+    { unfold enc_opaque in Ea. destruct ((0 <=? zlen x) && (zlen x <=? 255)); [|discriminate]. apply Some_inj in Ea. subst a.
+      unfold zlen. rewrite !app_length. unfold enc_uint. rewrite be_enc_length. change (width_of_ceiling 255) with 1%nat. lia. }
+    destruct (Z.eqb_spec (zlen (a ++ b')) 0); [contradiction|].
+    rewrite (dec_enc_opaque 0 255 x a b' ltac:(lia) Ea). cbn [obind]. rewrite (IH b' f eq_refl) by lia. reflexivity.
+Qed.
+
+Lemma dec_enc_txt s : exists b, enc_txt s = Some b /\ dec_txt b = Some s.
+Proof.
+  unfold enc_txt. destruct (enc_strings_total (txt_chunks (length s) s)) as [b Eb]; [apply txt_chunks_small; lia|].
+  exists b. split; [exact Eb|]. unfold dec_txt.
+  pose proof (enc_strings_length _ _ Eb) as L.
+  assert (Hn : (1 <= length (txt_chunks (length s) s))%nat).
+  { destruct (length s) as [|f]; cbn [txt_chunks]; [cbn; lia|]. destruct (zlen s <=? 255); cbn [length]; lia. }
+  destruct (Z.eqb_spec (zlen b) 0) as [Z0|_]; [unfold zlen in Z0; lia|].
+  rewrite (dec_enc_strings _ b (S (length b)) Eb) by lia. rewrite txt_chunks_concat. reflexivity.
+Qed.
+
+(* a text of at most 255 octets is a single character-string: the length octet and the text *)
+Lemma enc_txt_short s : zlen s <= 255 -> enc_txt s = Some (enc_uint 1 (zlen s) ++ s).
+Proof.
+  intros H. unfold enc_txt. assert (E : txt_chunks (length s) s = [s]).
+  { destruct (length s) as [|f]; cbn [txt_chunks]; [reflexivity|]. destruct (Z.leb_spec (zlen s) 255); [reflexivity|lia]. }
+  rewrite E. cbn [enc_strings]. unfold enc_opaque. pose proof (zlen_nonneg s).
+  destruct (Z.leb_spec 0 (zlen s)); [|lia]. destruct (Z.leb_spec (zlen s) 255); [|lia]. cbn [andb obind].
+  change (width_of_ceiling 255) with 1%nat. rewrite app_nil_r. reflexivity.
+Qed.
+
 (* ECDSA keys (RFC 6605): what the specification encodes decodes to the same point, and the key has exactly 2 x 32 or
    2 x 48 octets; EdDSA keys (RFC 8080) are 32 or 57 octets taken verbatim *)
 From CP Require Import Lemmas.UnitLemmas.
